@@ -52,6 +52,12 @@ def line_point(v):
     x = strip_upd(v)
     if x[0] == 'field' and x[2] in ('start', 'end'):
         src = strip_upd(x[1])
+        # `for (i, line) in ring.lines().enumerate()`: the line is the second component of the payload
+        if src[0] == 'field' and str(src[2]) == '1' and strip_upd(src[1])[0] == 'field' and str(strip_upd(src[1])[2]) == '0' \
+                and strip_upd(strip_upd(src[1])[1])[0] == 'variant':
+            it0 = strip_upd(strip_upd(strip_upd(src[1])[1])[1])
+            if it0[0] in ('call', 'pcall') and 'Enumerate<' in it0[1] and it0[1].endswith('::next'):
+                src = strip_upd(src[1])
         if src[0] == 'field' and str(src[2]) == '0' and strip_upd(src[1])[0] == 'variant':
             it = strip_upd(strip_upd(src[1])[1])
             if it[0] in ('call', 'pcall') and it[1].endswith('::next'):
@@ -344,6 +350,103 @@ def acc_arg(a):
     return 'other:' + show(noepoch(x))[:50]
 
 
+def _len_leaf(v):
+    """name of the operand whose length v is (slice::len(subject) as u32 -> 'subject')"""
+    x = strip_upd(v)
+    while x[0] == 'cast':
+        x = strip_upd(x[2])
+    if x[0] in ('call', 'pcall') and x[1].endswith('::len') and x[2]:
+        a = strip_upd(x[2][0])
+        while a[0] in ('deref', 'refval', 'ref') and len(a) > 1 and isinstance(a[1], tuple) and a[0] != 'ref':
+            a = strip_upd(a[1])
+        if a[0] == 'param':
+            return a[2]
+    return None
+
+
+def _lin_len(v):
+    """linear form over operand lengths: ({'subject': 1}, 0) for len(subject), constants, sums / differences"""
+    x = strip_upd(v)
+    while x[0] == 'cast':
+        x = strip_upd(x[2])
+    n = _len_leaf(x)
+    if n:
+        return ({n: 1}, 0)
+    if sym.is_const(x) and isinstance(x[1], int) and not isinstance(x[1], bool):
+        return ({}, int(x[1]))
+    if x[0] == 'field' and str(x[2]) == '0':
+        y = strip_upd(x[1])
+        if y[0] == 'op' and y[1] in ('addwithoverflow', 'subwithoverflow') and len(y) == 4:
+            a, b_ = _lin_len(y[2]), _lin_len(y[3])
+            if a is None or b_ is None:
+                return None
+            s = 1 if y[1].startswith('add') else -1
+            d = dict(a[0])
+            for k, c in b_[0].items():
+                d[k] = d.get(k, 0) + s * c
+            return ({k: c for k, c in d.items() if c}, a[1] + s * b_[1])
+    if x[0] == 'op' and x[1] in ('add', 'sub') and len(x) == 4:
+        a, b_ = _lin_len(x[2]), _lin_len(x[3])
+        if a is None or b_ is None:
+            return None
+        s = 1 if x[1] == 'add' else -1
+        d = dict(a[0])
+        for k, c in b_[0].items():
+            d[k] = d.get(k, 0) + s * c
+        return ({k: c for k, c in d.items() if c}, a[1] + s * b_[1])
+    return None
+
+
+def _range_len(v):
+    """number of elements of a range value as a linear form over operand lengths; 'inf' for a.. ; None when unknown"""
+    x = strip_upd(v)
+    while x[0] in ('call', 'pcall') and x[1].endswith('into_iter') and len(x[2]) == 1:
+        x = strip_upd(x[2][0])
+    if x[0] == 'agg' and x[5].endswith('RangeFrom'):
+        return 'inf'
+    lo = hi = None
+    incl = False
+    if x[0] in ('call', 'pcall') and x[1].endswith('RangeInclusive::<Idx>::new') and len(x[2]) == 2:
+        lo, hi, incl = _lin_len(x[2][0]), _lin_len(x[2][1]), True
+    elif x[0] == 'agg' and x[5].endswith('::Range') and len(x[4]) == 2:
+        lo, hi = _lin_len(x[4][0]), _lin_len(x[4][1])
+    if lo is None or hi is None:
+        return None
+    d = dict(hi[0])
+    for k, c in lo[0].items():
+        d[k] = d.get(k, 0) - c
+    return ({k: c for k, c in d.items() if c}, hi[1] - lo[1] + (1 if incl else 0))
+
+
+PRESERVING = re.compile(r'(::into_iter|slice::<impl \[T\]>::iter|Vec::<T(, A)?>::iter|Iterator::(enumerate|cloned|copied|rev|by_ref|peekable|inspect))$')
+
+
+def _covers(v):
+    """name of the operand whose polygons the iterator value v yields completely, else None"""
+    x = strip_upd(v)
+    for _ in range(12):
+        if x[0] in ('deref', 'refval') and len(x) > 1:
+            x = strip_upd(x[1])
+            continue
+        break
+    if x[0] == 'param' and x[2] in ('subject', 'clipping'):
+        return x[2]
+    if x[0] in ('call', 'pcall'):
+        if PRESERVING.search(x[1]) and x[2]:
+            return _covers(x[2][0])
+        if x[1].endswith('Iterator::zip') and len(x[2]) == 2:
+            for a, b_ in ((x[2][0], x[2][1]), (x[2][1], x[2][0])):
+                op = _covers(a)
+                if op:
+                    n = _range_len(b_)
+                    if n == 'inf' or n == ({op: 1}, 0):
+                        return op
+                    if _covers(b_) == op:
+                        return op
+            return None
+    return None
+
+
 # ------------------------------------------------------------------------------------ fill_queue
 
 def check_fill_queue(ctx, rep, rules=('B-acc', 'X-opsites', 'W-iter')):
@@ -497,6 +600,31 @@ def check_fill_queue(ctx, rep, rules=('B-acc', 'X-opsites', 'W-iter')):
                'an operand is not queued (conditions: %s)' % (short(ub.id), [show(noepoch(v))[:50] for v, _ in p.conds][-3:]),
                loc=ub.loc(ub.j['line_lo']), reason='dominance')
     rep.floor(R_OPS, 'loop iteration paths of fill_queue', n_iter, 4)
+    # (c) the loops over the operands run over *all* polygons of the operand: the iterator is the operand's own iterator, possibly
+    #     through adaptors that neither drop nor cut elements; zip is accepted only with a partner that is provably long enough
+    covered = {}
+    for (ub, p, actual) in units:
+        for e in p.events:
+            if e['k'] != 'loophead':
+                continue
+            for l, v in e.get('pre', {}).items():
+                vv = sub(v, actual)
+                # the operand(s) whose polygons are iterated (a parameter used only for its length does not count)
+                ops_ = sorted(set(nm for nm in ('subject', 'clipping') for y in sym.walk(vv)
+                                  if y[0] in ('call', 'pcall') and (y[1].endswith('::into_iter') or y[1].endswith('::iter')) and y[2]
+                                  and _covers(y[2][0]) == nm and strip_upd(y[2][0])[0] in ('param', 'deref', 'refval')))
+                x = strip_upd(vv)
+                if len(ops_) != 1 or x[0] not in ('call', 'pcall') or not re.search(r'(into_iter|::iter|Iterator::\w+)$', x[1]):
+                    continue
+                got = _covers(vv)
+                covered.setdefault(ops_[0], set()).add((got == ops_[0], show(noepoch(vv))[:140]))
+    for nm in ('subject', 'clipping'):
+        items = covered.get(nm, set())
+        bad_it = sorted(s for ok_, s in items if not ok_)
+        rep.ob(R_OPS, 'operand-iterated-completely:%s' % nm, bool(items) and not bad_it,
+               'every polygon of the %s operand must be queued for every operation: the loop must run over the whole operand (its own '
+               'iterator, through adaptors that neither drop nor cut elements; zip only with a partner of at least the same length); '
+               'found %s' % (nm, bad_it or 'no loop over this operand'), loc=b.loc(b.j['line_lo']), reason='dominance')
     allowed = {(short(PP), roles.index('is_exterior_ring') if 'is_exterior_ring' in roles else 5)}
     extra = sorted(u for u in uses if u[0] != 'branch' and u not in allowed)
     rep.ob(R_OPS, 'operation-reaches-only-exterior-flag', not extra,
